@@ -114,6 +114,15 @@ func c06Scenarios() []scenario {
 			}
 		}
 	}
+	// Fini of a screen that is suspended at that moment (after 0 or 1 Suspend/Resume cycles):
+	// the after-Fini obligations are the same
+	for _, cyc := range []int{0, 1} {
+		add(c06p{op: "suspend-fini", cycles: cyc, c: 1})
+		if cyc == 0 { // (a second consumer would compete with the cycle's own polling for the events)
+			add(c06p{op: "suspend-fini", cycles: cyc, c: 2, e: 10, polling: true})
+		}
+		add(c06p{op: "suspend-fini", cycles: cyc, c: 12, e: 10})
+	}
 	for _, cyc := range []int{1, 2} {
 		add(c06p{op: "suspend", cycles: cyc, c: 1})
 		add(c06p{op: "suspend", cycles: cyc, c: 2, e: 3, poster: true})
@@ -176,6 +185,10 @@ func c06prog(ps string, res *result) func() {
 						break
 					}
 					afterResume(r, res, cyc)
+				}
+				if p.op == "suspend-fini" {
+					s.Fini() // while suspended
+					afterFini(r, res)
 				}
 			}
 		})
